@@ -280,12 +280,13 @@ var prop = harn.Register(&harn.Prop[Case]{Name: "TestConcurrentSessions", Run: r
 var opts = scen.GenOpts{
 	World: world.Opts{MaxFlows: 3, MaxNodes: 4, Languages: []string{"fra", "spa"}, QueryGroups: true, WebhookRefs: true, NoRandom: true,
 		Templates: []string{"@contact.groups", "@(contact.groups[0].name)", "@(json(contact.groups))", "@(foreach(contact.groups, (g) => g.name))", "@contact.fields", "@(json(globals))", "@globals", "@(json(contact.fields))",
-			"@webhook", "@webhook.json", "@webhook.json.ok", "@(if(webhook.json.ok, 1, 2))", "@(webhook.json.ok = true)", "@trigger.params.flag"}, NoGeneratedIDs: true, LocationHeavy: true,
+			"@webhook", "@webhook.json", "@webhook.json.ok", "@(if(webhook.json.ok, 1, 2))", "@(webhook.json.ok = true)", "@trigger.params.flag"}, NoGeneratedIDs: true, LocationHeavy: true, ChainHeavy: true,
 		WebhookCmds: []string{"true", "false", "true", "json", "json", "null"},
 		// no rand()/now()-dependent or clock-dependent templates: outputs must be comparable modulo UUIDs and timestamps
 		Actions: []string{"send_msg", "set_run_result", "set_contact_name", "set_contact_field", "set_contact_language", "add_contact_groups", "remove_contact_groups", "enter_flow", "call_webhook", "add_contact_urn", "set_contact_status", "send_broadcast", "start_session"}}, // no open_ticket: it saves the generated ticket UUID as a result value, which later routers read (found by the thorough tier: has_number on that value)
 	StaleGroups: true,
 	Redaction:   true,
+	Collations:  true,
 	MaxSteps:    3,
 }
 
@@ -312,7 +313,7 @@ func drawCase(t *rapid.T) Case {
 	}
 	var tr0 world.M
 	_ = json.Unmarshal(cs.Trigger, &tr0)
-	texts := []string{"red", "blue", "yes", "5", "hello", "18", "magic", "Centre", "Gasabo", "Gisozi", "Market", "Kigali", "I moved from East to Kigali last year", "1.234,5 francs", "Ndera"}
+	texts := []string{"red", "blue", "yes", "5", "hello", "18", "magic", "Centre", "Gasabo", "Gisozi", "Market", "Kigali", "I moved from East to Kigali last year", "1.234,5 francs", "Ndera", "\u0643\u064a\u0641 red \u06a9\u06cc\u0641", "\u0649\u0647 yes"}
 	if focused {
 		hints := []string{}
 		for _, f := range w.Flows {
